@@ -127,6 +127,20 @@ def expr(e):
             and e.slice.lower is None and e.slice.step is None and e.slice.upper is not None:
         return '(EPrim PSliceTo [%s; %s])' % (expr(e.value), expr(e.slice.upper))   # a[:n]
     if isinstance(e, ast.Subscript) and isinstance(e.ctx, ast.Load) and isinstance(e.slice, ast.Slice) \
+            and e.slice.upper is None and e.slice.step is None and e.slice.lower is not None:
+        # a[n:] on a list: the primitive PSliceFrom of Py.v (negative n from the end, clamped like Python; any operand
+        # that is not a list / an integer is the error value TypeError); a evaluated first, then n
+        return '(EPrim PSliceFrom [%s; %s])' % (expr(e.value), expr(e.slice.lower))
+    if isinstance(e, ast.Dict) and len(e.keys) == 1 and e.keys[0] is not None and (
+            isinstance(e.keys[0], ast.Name) or (isinstance(e.keys[0], ast.Constant) and type(e.keys[0].value) is int)):
+        # {k: v}, ONE entry whose key is a plain name or an integer literal (the skip stacks `{index: skip_stack}` of
+        # the layout code): a dictionary with a non-string key is outside the value domain of Py.v, so the display is
+        # printed as the call of the builtin "%dict1" (not a Python name) with the key and the value, evaluated in this
+        # order as Python does.  Its meaning is whatever [ocall] answers: the theorems state it (a value that
+        # determines both the key and the value).  An unhashable key raises TypeError in Python: the theorems are
+        # about integer keys.
+        return '(ECall "%%dict1" [%s; %s])' % (expr(e.keys[0]), expr(e.values[0]))
+    if isinstance(e, ast.Subscript) and isinstance(e.ctx, ast.Load) and isinstance(e.slice, ast.Slice) \
             and e.slice.lower is None and e.slice.upper is None and isinstance(e.slice.step, ast.UnaryOp) \
             and isinstance(e.slice.step.op, ast.USub) and isinstance(e.slice.step.operand, ast.Constant) \
             and e.slice.step.operand.value == 1 and type(e.slice.step.operand.value) is int:
@@ -570,6 +584,8 @@ CURRENT = [None, None]
 SEQ_OPS = [False]
 FOR_BREAK = [False]
 UNPACK_GEN = [False]
+# option 'rebuild' of the target being printed (see rebuild_for)
+REBUILD = [False]
 
 
 def seq_op(e):
@@ -776,6 +792,9 @@ def sum_over_display(g):
 # translation targets (filled by generate()); methods are registered as ".name" with self first
 CALLABLE = {}
 CALLS_SEEN = []
+# translated methods declared `@staticmethod` (option 'static' of their target; generate() checks the decorator):
+# ".name" -- a call x.name(a, b) passes a, b only (see call())
+STATIC_METHODS = set()
 # Python builtins printed as primitives in the body being translated (abs, reversed): translate_function refuses
 # the target when the module binds one of these names itself
 NAMED_BUILTINS_SEEN = []
@@ -842,6 +861,18 @@ def call(e):
         raise Unsupported(ast.dump(e)[:200])
     if name in TARGET_ORACLE:
         raise Unsupported('%s is a statement oracle of this target: not callable in an expression' % name)
+    if name in STATIC_METHODS:
+        # x.m(a, b) where m is a translated @staticmethod (option 'static' of its target): the callee does not receive
+        # x.  The receiver is dropped from the printed call only when evaluating it can neither fail nor do anything:
+        # it must be the first parameter of the function being printed (bound on entry) and never rebound / deleted
+        # there.  Like every method the callee is resolved by name.
+        fn_ = CURRENT[0]
+        r_ = args[0]
+        if fn_ is None or not isinstance(r_, ast.Name) or not fn_.args.args or fn_.args.args[0].arg != r_.id or any(
+                isinstance(n_, ast.Name) and n_.id == r_.id and not isinstance(n_.ctx, ast.Load)
+                for n_ in ast.walk(fn_)):
+            raise Unsupported('receiver of the static method %s is not the (never rebound) first parameter' % name)
+        args = args[1:]
     if name in CALLABLE:
         params, defaults = CALLABLE[name]
     elif name in EXTERNAL:
@@ -1073,6 +1104,11 @@ def property_assignment(s):
 #  * `x.a.pop()` as a statement is  %recv = x.a; %call = %recv[-1]; x.a = %recv[:-1]  : on an empty list `%recv[-1]`
 #    raises IndexError as pop() does, otherwise the last element is dropped.  (A receiver that is not a list is an
 #    error in both: AttributeError in Python, TypeError here.)
+#  * `x.a[-1] = e` as a statement (x a plain name, the index the literal -1) is
+#    %val = e; %recv = x.a; %recv[-1] = %val; x.a = %recv  ("%val" is not a Python name): Python evaluates e, then x.a,
+#    then stores into the list object; with lists as values the same effect is the rebinding of the attribute, under
+#    the same no-alias check as for append / pop (a read of x.a inside e is refused).  IndexError on an empty list in
+#    both; a receiver that is not a list is TypeError in both.
 #  * a bytes literal b'q' (printable ASCII) is the constant VStr "b'q'", the text of its repr: Py.v has no bytes, and
 #    a str equal to that text would be confused with it - the theorems about these targets state which values the
 #    items of the lists are (none of them is such a str).
@@ -1135,6 +1171,8 @@ def check_attr_list_alias(fn, x, a):
             safe.add(id(n.value.func.value))
         if isinstance(n, ast.Subscript) and isinstance(n.ctx, ast.Load):
             safe.add(id(n.value))
+        if isinstance(n, ast.Assign) and obj_methods_store_last(n) is not None:
+            safe.add(id(n.targets[0].value))    # the receiver of the statement x.a[-1] = e
         if isinstance(n, ast.Call) and isinstance(n.func, ast.Name) and n.func.id == 'len' and len(n.args) == 1:
             safe.add(id(n.args[0]))
         if isinstance(n, (ast.If, ast.Assert)):
@@ -1151,8 +1189,28 @@ def check_attr_list_alias(fn, x, a):
             raise Unsupported('the list %s.%s is mutated and read at line %d in a way that may alias it' % (x, a, n.lineno))
 
 
+def obj_methods_store_last(s):
+    """(x, a) when s is the statement `x.a[-1] = e` (see OBJ_METHODS), else None"""
+    if isinstance(s, ast.Assign) and len(s.targets) == 1 and isinstance(s.targets[0], ast.Subscript) \
+            and isinstance(s.targets[0].value, ast.Attribute) and isinstance(s.targets[0].value.value, ast.Name) \
+            and isinstance(s.targets[0].slice, ast.UnaryOp) and isinstance(s.targets[0].slice.op, ast.USub) \
+            and isinstance(s.targets[0].slice.operand, ast.Constant) and s.targets[0].slice.operand.value == 1 \
+            and type(s.targets[0].slice.operand.value) is int:
+        return s.targets[0].value.value.id, s.targets[0].value.attr
+    return None
+
+
 def obj_methods_stmt(s):
     """the statement forms of the option 'obj_methods' (see OBJ_METHODS); returns None when s is none of them"""
+    if obj_methods_store_last(s) is not None:
+        x, a = obj_methods_store_last(s)
+        fn = CURRENT[0]
+        if fn is None or a in PROP_GET:
+            raise Unsupported('%s.%s[-1] = ... outside a function / on a property' % (x, a))
+        check_attr_list_alias(fn, x, a)
+        return ('(SAssign [(TVar "%%val")] %s); (SAssign [(TVar "%%recv")] (EAttr (EVar %s) %s)); '
+                '(SSetItem "%%recv" (EConst (VNum ((-1)#1))) (EVar "%%val")); (SAssign [(TAttr %s %s)] (EVar "%%recv"))' % (
+                    expr(s.value), q(x), q(a), q(x), q(a)))
     if not (isinstance(s, ast.Expr) and isinstance(s.value, ast.Call) and isinstance(s.value.func, ast.Attribute)):
         return None
     c, f = s.value, s.value.func
@@ -1269,6 +1327,10 @@ def stmt(s):
         if any(isinstance(m, (ast.Break, ast.Continue)) for b in body for m in ast.walk(b)):
             raise Unsupported('break/continue inside a for loop')
         return '(SFor %s %s [%s])' % (q(s.target.id), expr(s.iter), block(body))
+    if REBUILD[0] and isinstance(s, ast.For) and isinstance(s.target, ast.Tuple) and not s.orelse:
+        r_ = rebuild_for(s)
+        if r_ is not None:
+            return r_
     if isinstance(s, ast.For) and isinstance(s.target, ast.Tuple) and not s.orelse \
             and all(isinstance(t, ast.Name) for t in s.target.elts) \
             and len({t.id for t in s.target.elts}) == len(s.target.elts):
@@ -1341,7 +1403,213 @@ def stmt(s):
         return 'SBreak'
     if isinstance(s, ast.Continue):
         return 'SContinue'
+    if isinstance(s, ast.Delete) and len(s.targets) == 1 and isinstance(s.targets[0], ast.Subscript) \
+            and isinstance(s.targets[0].value, ast.Name) and isinstance(s.targets[0].slice, ast.Slice) \
+            and s.targets[0].slice.lower is not None and s.targets[0].slice.upper is None \
+            and s.targets[0].slice.step is None:
+        # del x[n:]  ==  x = x[:n]   for a variable x holding a list: for EVERY integer n (negative, zero, beyond the
+        # ends) x[:n] + x[n:] == x, so deleting the tail x[n:] leaves exactly x[:n] (PSliceTo of Py.v; x read first,
+        # then n, as Python does).  Python shortens the list object in place where this rebinds the variable: nobody
+        # can tell the difference when the function being printed has no second name for that object
+        # (check_del_alias); when x is a parameter the caller sees the shortened list: the theorems read it as the
+        # final value of x.
+        t = s.targets[0]
+        check_del_alias(t.value.id, s)
+        return '(SAssign [(TVar %s)] (EPrim PSliceTo [(EVar %s); %s]))' % (
+            q(t.value.id), q(t.value.id), expr(t.slice.lower))
     raise Unsupported(ast.dump(s)[:200])
+
+
+def check_del_alias(x, stmt_):
+    """See `del x[n:]` in stmt(): in the whole function being printed, the name x is never a target (other than by
+    being a parameter) and every read of it is one that cannot give the list object a second name: x[..] (an
+    element or a slice, which is a copy), len(x), the iterable of a `for` statement that does not contain the `del`
+    (the list is not shortened while it is iterated)."""
+    fn = CURRENT[0]
+    if fn is None:
+        raise Unsupported('del %s[..] where the function is not known' % x)
+    safe = set()
+    for n in ast.walk(fn):
+        if isinstance(n, ast.Subscript) and isinstance(n.value, ast.Name):
+            safe.add(id(n.value))
+        if isinstance(n, ast.Call) and isinstance(n.func, ast.Name) and n.func.id == 'len' and len(n.args) == 1 \
+                and not n.keywords and isinstance(n.args[0], ast.Name):
+            safe.add(id(n.args[0]))
+        if isinstance(n, ast.For) and isinstance(n.iter, ast.Name) and not any(m is stmt_ for m in ast.walk(n)):
+            safe.add(id(n.iter))
+        if isinstance(n, (ast.Lambda, ast.FunctionDef, ast.AsyncFunctionDef, ast.ClassDef)) and n is not fn and any(
+                isinstance(m, ast.Name) and m.id == x for m in ast.walk(n)):
+            raise Unsupported('the list %s shortened by del is captured by a nested function' % x)
+        if isinstance(n, (ast.Global, ast.Nonlocal)) and x in n.names:
+            raise Unsupported('the list %s shortened by del is global / nonlocal' % x)
+    for n in ast.walk(fn):
+        if isinstance(n, ast.Name) and n.id == x:
+            if not isinstance(n.ctx, ast.Load):
+                raise Unsupported('the list %s shortened by del is rebound at line %d' % (x, n.lineno))
+            if id(n) not in safe:
+                raise Unsupported('the list %s is shortened by del and read at line %d in a way that may alias it'
+                                  % (x, n.lineno))
+
+
+def rebuild_for(s):
+    """Option 'rebuild' of a target (objects and lists are VALUES in Py.v: `for a, c in L: c.x = e` would update the
+    variable c only).  Two forms of `for` with a tuple target are printed here; None: not one of them.
+      for a, c in L: body      L a plain name, a / c distinct plain names, body stores attributes of a or c
+         ==  %new = []                                     ("%new", "%item" are not Python names)
+             for %item in L: a, c = %item; body; %new.append((a, c))
+             L = %new
+         In Python the items of L are the SAME tuples before and after, and what changed is the state of the objects
+         they hold; read as values, L after the loop is the list of the pairs (a, c) as they are at the end of their
+         iteration, in order - the rebuilt list.  This is the meaning for every input in which the objects of L are
+         pairwise distinct and have no other name that the translated statements read (the standing reading of
+         objects as values: see check_setitem_alias).  Checked here, refused otherwise: the body never mentions L
+         (an item read through L would show the old value), never rebinds a or c, contains no loop, break, continue
+         or return; after the loop a and c are the last pair in both readings.
+      for i, (a, c) in it: body   body stores no attribute of a / c and rebinds none of i, a, c
+         ==  for %item in it: i, %item1 = %item; a, c = %item1; body
+         (an item of the wrong shape raises in Python and in SUnpack)."""
+    names = []
+    nested = None
+    for t in s.target.elts:
+        if isinstance(t, ast.Name):
+            names.append(t.id)
+        elif isinstance(t, ast.Tuple) and all(isinstance(u, ast.Name) for u in t.elts) and nested is None:
+            nested = t
+            names.extend(u.id for u in t.elts)
+        else:
+            return None
+    if len(set(names)) != len(names):
+        return None
+    body = fold_continue(list(s.body))
+    attr_stores = set()
+    for b in body:
+        for n in ast.walk(b):
+            if isinstance(n, ast.Attribute) and not isinstance(n.ctx, ast.Load) and isinstance(n.value, ast.Name) \
+                    and n.value.id in names:
+                attr_stores.add(n.value.id)
+    if nested is None and (not attr_stores or not isinstance(s.iter, ast.Name)):
+        return None
+    for b in body:
+        for n in ast.walk(b):
+            if isinstance(n, (ast.Break, ast.Continue, ast.Return, ast.For, ast.While, ast.Lambda, ast.FunctionDef,
+                              ast.NamedExpr, ast.ListComp, ast.GeneratorExp, ast.SetComp, ast.DictComp)):
+                raise Unsupported('%s inside a for loop with a tuple target (option rebuild)' % type(n).__name__)
+            if isinstance(n, ast.Name) and n.id in names and not isinstance(n.ctx, ast.Load):
+                raise Unsupported('the loop variable %s is rebound inside the loop' % n.id)
+    if nested is not None:
+        if attr_stores:
+            raise Unsupported('attributes of %s are stored inside a loop with a nested tuple target' % sorted(attr_stores))
+        if len(s.target.elts) != 2 or s.target.elts[1] is not nested:
+            raise Unsupported('nested tuple target of a for loop')
+        u1 = '(SUnpack [%s; (TVar "%%item1")] (EVar "%%item"))' % target(s.target.elts[0])
+        u2 = '(SUnpack [%s] (EVar "%%item1"))' % '; '.join(target(t) for t in nested.elts)
+        return '(SFor "%%item" %s [%s; %s; %s])' % (expr(s.iter), u1, u2, block(body))
+    lst = s.iter.id
+    if lst in names:
+        raise Unsupported('the list %s is a loop variable of the loop over it' % lst)
+    for b in body:
+        for n in ast.walk(b):
+            if isinstance(n, ast.Name) and n.id == lst:
+                raise Unsupported('the list %s is used inside the loop that mutates its items' % lst)
+    unpack = '(SUnpack [%s] (EVar "%%item"))' % '; '.join(target(t) for t in s.target.elts)
+    pair = '(ETuple [%s])' % '; '.join('(EVar %s)' % q(x) for x in names)
+    return ('(SAssign [(TVar "%%new")] (ETuple [])); (SFor "%%item" (EVar %s) [%s; %s; (SAppend "%%new" %s)]); '
+            '(SAssign [(TVar %s)] (EVar "%%new"))' % (q(lst), unpack, block(body), pair, q(lst)))
+
+
+def slice_nested(fn, first, last, opts):
+    """slice_from = ('<nested>', first, last, opts): consecutive statements of ONE block at any depth of fn: from the
+    statement whose text (ast.unparse) starts with `first` - exactly one statement of the whole function does -
+    through the first statement of the same block, at or after it, whose text starts with `last` (None: that one
+    statement).  The statements around the slice are not translated; its free variables are the `params` of the
+    target.  Checked (fail-closed), with opts =
+      'inside': the first lines of the compound statements that enclose the block, outermost first (the slice may
+                not silently move to another loop);
+      'block':  a prefix of the first line of EVERY statement of that block, in order: the slices of one block are
+                then known to cover it without a statement inserted, removed or moved between them;
+      'consts': {name: string}: the slice SPECIALISED to this value of a local by constant propagation (cp_block /
+                ConstProp: getattr(x, f'min_{name}') becomes an attribute access).  `name` is not bound inside the
+                slice, and every binding of it in fn is a plain / tuple assignment of string constants one of which
+                is this string (so the targets with the other strings together cover every value it can have).
+    The slice contains no nested function, lambda, global / nonlocal, del, walrus, yield, try, with, return, break,
+    continue."""
+    import copy
+    found = []
+
+    def visit(stmts, chain):
+        for k, st in enumerate(stmts):
+            text = ast.unparse(st)
+            if text.startswith(first):
+                found.append((stmts, k, chain))
+            if isinstance(st, (ast.FunctionDef, ast.AsyncFunctionDef, ast.ClassDef)):
+                continue
+            head = text.split('\n')[0]
+            for field in ('body', 'orelse', 'finalbody'):
+                sub = getattr(st, field, None)
+                if isinstance(sub, list) and sub and isinstance(sub[0], ast.stmt):
+                    visit(sub, chain + [head if field == 'body' else '%s [%s]' % (head, field)])
+            for h in getattr(st, 'handlers', []):
+                visit(h.body, chain + [head + ' [except]'])
+    visit(fn.body, [])
+    if len(found) != 1:
+        raise Unsupported('%d statements of %s start with `%s`' % (len(found), fn.name, first.split('\n')[0]))
+    stmts, i, chain = found[0]
+    if chain != list(opts.get('inside', [])):
+        raise Unsupported('the slice `%s` of %s is inside %s' % (first.split('\n')[0], fn.name, chain))
+    if 'block' in opts:
+        heads = [ast.unparse(x).split('\n')[0] for x in stmts]
+        want = list(opts['block'])
+        if len(heads) != len(want) or not all(h.startswith(w) for h, w in zip(heads, want)):
+            raise Unsupported('the block of the slice `%s` of %s is not the expected sequence of statements: %s'
+                              % (first.split('\n')[0], fn.name, heads))
+    if last is None:
+        j = i
+    else:
+        ends = [k for k in range(i, len(stmts)) if ast.unparse(stmts[k]).startswith(last)]
+        if not ends:
+            raise Unsupported('no statement `%s` after `%s` in %s' % (last.split('\n')[0], first.split('\n')[0], fn.name))
+        j = ends[0]
+    sl = [copy.deepcopy(x) for x in stmts[i:j + 1]]
+    for st in sl:
+        for n in ast.walk(st):
+            if isinstance(n, (ast.FunctionDef, ast.AsyncFunctionDef, ast.Lambda, ast.Global, ast.Nonlocal, ast.Delete,
+                              ast.NamedExpr, ast.Yield, ast.YieldFrom, ast.Await, ast.ClassDef, ast.Try, ast.With,
+                              ast.Return, ast.Break, ast.Continue)):
+                raise Unsupported('%s inside the slice `%s` of %s' % (type(n).__name__, first.split('\n')[0], fn.name))
+    consts = dict(opts.get('consts', {}))
+    if consts:
+        builtin_not_rebound('getattr')
+        comp = set()
+        for c in ast.walk(fn):
+            if isinstance(c, ast.comprehension):
+                comp.update(id(x) for x in ast.walk(c.target))
+        for nm, val in consts.items():
+            values = set()
+            accounted = set()
+            for a in ast.walk(fn):
+                if isinstance(a, ast.Assign) and len(a.targets) == 1:
+                    t, v = a.targets[0], a.value
+                    pairs = [(t, v)]
+                    if isinstance(t, ast.Tuple) and isinstance(v, ast.Tuple) and len(t.elts) == len(v.elts):
+                        pairs = list(zip(t.elts, v.elts))
+                    for t1, v1 in pairs:
+                        if isinstance(t1, ast.Name) and t1.id == nm and isinstance(v1, ast.Constant) \
+                                and isinstance(v1.value, str):
+                            values.add(v1.value)
+                            accounted.add(id(t1))
+            for n in ast.walk(fn):
+                if isinstance(n, ast.Name) and n.id == nm and not isinstance(n.ctx, ast.Load) and id(n) not in accounted:
+                    raise Unsupported('%s is bound in %s other than by an assignment of a string constant' % (nm, fn.name))
+                if isinstance(n, ast.arg) and n.arg == nm:
+                    raise Unsupported('%s is a parameter in %s' % (nm, fn.name))
+                if isinstance(n, (ast.Global, ast.Nonlocal)) and nm in n.names:
+                    raise Unsupported('%s is declared global / nonlocal in %s' % (nm, fn.name))
+            if val not in values or not isinstance(val, str):
+                raise Unsupported('%s is never bound to %r in %s' % (nm, val, fn.name))
+        sl = cp_block(sl, dict(consts), list(consts))[0]
+        for st in sl:
+            ast.fix_missing_locations(st)
+    return sl
 
 
 def fresh_list_attr(x, f):
@@ -2180,6 +2448,7 @@ def translate_function(fn, name, slice_from=None, params=None, after_unpack=None
     SEQ_OPS[0] = any(c == name and x.get('seq_ops') for _, ts in TARGETS.values() for _, _, c, x in ts)
     FOR_BREAK[0] = any(c == name and x.get('for_break') for _, ts in TARGETS.values() for _, _, c, x in ts)
     UNPACK_GEN[0] = any(c == name and x.get('unpack_gen') for _, ts in TARGETS.values() for _, _, c, x in ts)
+    REBUILD[0] = any(c == name and x.get('rebuild') for _, ts in TARGETS.values() for _, _, c, x in ts)
     OBJ_METHODS.clear()
     for _, ts in TARGETS.values():
         for _, _, c, x in ts:
@@ -2265,6 +2534,18 @@ def translate_function(fn, name, slice_from=None, params=None, after_unpack=None
                                slice_from[6] if len(slice_from) > 6 else ())
     elif isinstance(slice_from, tuple) and slice_from[0] == '<span>':
         body = slice_span(fn, slice_from[1], slice_from[2], slice_from[3], params)
+    elif isinstance(slice_from, tuple) and slice_from[0] == '<nested>':
+        body = slice_nested(fn, slice_from[1], slice_from[2], slice_from[3])
+    elif isinstance(slice_from, tuple) and slice_from[0] == '<after-for>':
+        # the statements that follow the (unique) top-level loop `for <name> in ..:` (name = slice_from[1]), to the end
+        # of fn; the loop and the statements before it are not translated (`params` are the free variables)
+        fors_ = [k for k, x in enumerate(body) if isinstance(x, ast.For) and isinstance(x.target, ast.Name)
+                 and x.target.id == slice_from[1]]
+        if len(fors_) != 1:
+            raise Unsupported('%d top-level loops over %s in %s' % (len(fors_), slice_from[1], fn.name))
+        body = body[fors_[0] + 1:]
+        if not body:
+            raise Unsupported('nothing after the loop over %s in %s' % (slice_from[1], fn.name))
     elif slice_from == '<last-if>':
         # the last `if` statement at the top level of the function (test included) and the statements after it, to the
         # end of the function; the statements before it are not translated
@@ -2678,11 +2959,24 @@ HEADER = ('(* GENERATED by tools/py2coq.py from %s -- do not edit *)\n'
           'From Coq Require Import QArith List String.\nRequire Import WV.base.Py.\n'
           'Import ListNotations.\nOpen Scope string_scope.\n\n')
 
+# option 'block' of the targets of GenFlexResolve (see slice_nested): the statements of the body of `for line in
+# flex_lines:` (flex_layout, step 6) and of its `while not all(frozen)` loop, by the start of their first lines
+FLEX_FOR_BLOCK = ['hypothetical_main_size = sum(', 'hypothetical_main_size += (len(line) - 1) * main_gap',
+                  'if hypothetical_main_size < available_main_space:', 'for index, child in line:',
+                  'initial_free_space = available_main_space', 'for i, (index, child) in enumerate(line):',
+                  'while not all((child.frozen for index, child in line)):', 'for index, child in line:']
+FLEX_WHILE_BLOCK = ['unfrozen_factor_sum = 0', 'remaining_free_space = available_main_space',
+                    'for i, (index, child) in enumerate(line):', 'if initial_free_space == inf:',
+                    'if remaining_free_space == inf:', 'if unfrozen_factor_sum < 1:',
+                    'if remaining_free_space == 0:', 'for index, child in line:',
+                    'adjustments = sum(', 'for index, child in line:']
 # option 'obj_methods' of the targets of GenStream (see OBJ_METHODS): the methods of pydyf.Stream that the methods of
 # weasyprint.pdf.stream.Stream call through super(), with their parameters, and the pydyf constructor they use
 STREAM_METHODS = {
     'super': {'push_state': [], 'pop_state': [], 'begin_text': [], 'end_text': [], 'end_marked_content': [],
-              'set_font_size': ['font', 'size']},
+              'set_font_size': ['font', 'size'], 'begin_marked_content': ['tag', 'property_list'],
+              'set_matrix': ['a', 'b', 'c', 'd', 'e', 'f']},
+    'module_calls': {'pydyf.Dictionary': 'dict'},
 }
 
 # file -> list of (kind, python name, coq name, extra)
@@ -2696,6 +2990,28 @@ TARGETS = {
     ]),
     'GenPercent': ('weasyprint/layout/percent.py', [
         ('fun', 'percentage', 'percentage', {}),
+    ]),
+    'GenLayoutCtx': ('weasyprint/layout/__init__.py', [
+        # LayoutContext.overflows (a @staticmethod: option 'static') and overflows_page, whose call
+        # self.overflows(..) is linked to it; the float literal 1e-9 is the exact rational 1/10^9
+        ('fun', 'LayoutContext.overflows', 'ctx_overflows', {'static': True}),
+        ('fun', 'LayoutContext.overflows_page', 'ctx_overflows_page', {}),
+    ]),
+    'GenBreakLine': ('weasyprint/layout/block.py', [
+        # _break_line whole: the orphans / widows decision when a line overflows.  remove_placeholders (it touches
+        # the placeholder lists and the footnotes only) is a statement oracle; `for _ in lines_iterator` with its
+        # break by the flag rewriting of option 'for_break'; del new_children[-needed:] and the slices see stmt()
+        ('fun', '_break_line', 'break_line',
+         {'for_break': True, 'out_params': ['new_children'],
+          'oracle_stmts': {'remove_placeholders': (['context', 'box_list', 'absolute_boxes', 'fixed_boxes'],
+                                                   ['context', 'absolute_boxes', 'fixed_boxes'])}}),
+        # find_earlier_page_break: its first statement, the case of a list of line boxes (index = len - widows;
+        # nothing when index < orphans)
+        ('fun', 'find_earlier_page_break', 'find_earlier_lines',
+         {'slice_from': '<first-if>', 'isinstance': True,
+          'params': ['context', 'children', 'absolute_boxes', 'fixed_boxes', 'boxes'],
+          'oracle_stmts': {'remove_placeholders': (['context', 'box_list', 'absolute_boxes', 'fixed_boxes'],
+                                                   ['context', 'absolute_boxes', 'fixed_boxes'])}}),
     ]),
     'GenBoxSizing': ('weasyprint/layout/percent.py', [
         # adjust_box_sizing(box, axis) specialised to its two call sites (option 'consts': constant propagation of
@@ -2780,6 +3096,20 @@ TARGETS = {
     'GenAbsolute': ('weasyprint/layout/absolute.py', [
         ('fun', 'absolute_width', 'absolute_width', {'callable': False}),
         ('fun', 'absolute_height', 'absolute_height', {'callable': False}),
+    ]),
+    'GenAbsReplaced': ('weasyprint/layout/absolute.py', [
+        # absolute_replaced (CSS 2.1 10.3.8 / 10.6.5), whole body: its first statement
+        # inline_replaced_box_width_height(box, (cb_width, cb_height)) sets box.width / box.height: an oracle statement
+        # (%call, box = f(box, containing_block)); box.margin_width() etc. are calls of the Box methods (GenBoxes)
+        ('fun', 'absolute_replaced', 'absolute_replaced', {
+            'callable': False,
+            'oracle_stmts': {'inline_replaced_box_width_height': (['box', 'containing_block'], ['box'])}}),
+        # the end of absolute_block, after the loop that lays the absolute descendants out: the translation returned by
+        # absolute_width / absolute_height becomes the final position (new_box.translate is an external statement)
+        ('fun', 'absolute_block', 'absolute_block_translate', {
+            'callable': False, 'slice_from': ('<after-for>', 'child_placeholder'),
+            'params': ['translate_box_width', 'translate_x', 'translate_box_height', 'translate_y', 'new_box',
+                       'resume_at']}),
     ]),
     'GenPage': ('weasyprint/layout/page.py', [
         ('fun', 'page_width_or_height', 'page_width_or_height', {}),
@@ -2954,6 +3284,56 @@ TARGETS = {
         ('fun', '_get_placement', 'grid_get_placement', {'opaque': True}),
         ('fun', '_get_span', 'grid_get_span', {}),
     ]),
+    'GenFlexResolve': ('weasyprint/layout/flex.py', [
+        # flex_layout, step 6 "resolve the flexible lengths" (css-flexbox 9.7, C12) for one line, as consecutive
+        # slices of the body of `for line in flex_lines:` and of its `while not all(frozen)` loop (slice_nested).
+        # The items are attribute bags held by the pairs (index, child) of `line`; the loops that store attributes
+        # of child are printed by the rule of rebuild_for (option 'rebuild').  `inf` and `sys` are inputs.
+        ('fun', 'flex_layout', 'flex_mode', {
+            'slice_from': ('<nested>', 'hypothetical_main_size = sum(', 'if hypothetical_main_size < available_main_space:',
+                           {'inside': ['for line in flex_lines:'], 'block': FLEX_FOR_BLOCK}),
+            'rebuild': True, 'params': ['line', 'main_gap', 'available_main_space']}),
+        ('fun', 'flex_layout', 'flex_inflexible', {
+            'slice_from': ('<nested>', "for index, child in line:\n    if flex_factor_type == 'grow':", None,
+                           {'inside': ['for line in flex_lines:'], 'block': FLEX_FOR_BLOCK}),
+            'rebuild': True, 'params': ['line', 'flex_factor_type']}),
+        ('fun', 'flex_layout', 'flex_initial_free_space', {
+            'slice_from': ('<nested>', 'initial_free_space = available_main_space',
+                           'for i, (index, child) in enumerate(line):\n    if child.frozen:\n        initial_free_space -=',
+                           {'inside': ['for line in flex_lines:'], 'block': FLEX_FOR_BLOCK}),
+            'rebuild': True, 'params': ['line', 'main_gap', 'available_main_space']}),
+        ('fun', 'flex_layout', 'flex_remaining', {
+            'slice_from': ('<nested>', 'unfrozen_factor_sum = 0', 'if unfrozen_factor_sum < 1:',
+                           {'inside': ['for line in flex_lines:',
+                                       'while not all((child.frozen for index, child in line)):'],
+                            'block': FLEX_WHILE_BLOCK}),
+            'rebuild': True,
+            'params': ['line', 'main_gap', 'available_main_space', 'initial_free_space', 'inf', 'sys']}),
+        ('fun', 'flex_layout', 'flex_distribute', {
+            'slice_from': ('<nested>', 'if remaining_free_space == 0:', None,
+                           {'inside': ['for line in flex_lines:',
+                                       'while not all((child.frozen for index, child in line)):'],
+                            'block': FLEX_WHILE_BLOCK}),
+            'rebuild': True, 'params': ['line', 'remaining_free_space', 'flex_factor_type']}),
+        ('fun', 'flex_layout', 'flex_clamp_width', {
+            'slice_from': ('<nested>', 'for index, child in line:\n    child.adjustment = 0', None,
+                           {'inside': ['for line in flex_lines:',
+                                       'while not all((child.frozen for index, child in line)):'],
+                            'block': FLEX_WHILE_BLOCK, 'consts': {'main': 'width'}}),
+            'rebuild': True, 'params': ['line']}),
+        ('fun', 'flex_layout', 'flex_clamp_height', {
+            'slice_from': ('<nested>', 'for index, child in line:\n    child.adjustment = 0', None,
+                           {'inside': ['for line in flex_lines:',
+                                       'while not all((child.frozen for index, child in line)):'],
+                            'block': FLEX_WHILE_BLOCK, 'consts': {'main': 'height'}}),
+            'rebuild': True, 'params': ['line']}),
+        ('fun', 'flex_layout', 'flex_freeze', {
+            'slice_from': ('<nested>', 'adjustments = sum(', 'for index, child in line:\n    if adjustments == 0:',
+                           {'inside': ['for line in flex_lines:',
+                                       'while not all((child.frozen for index, child in line)):'],
+                            'block': FLEX_WHILE_BLOCK}),
+            'rebuild': True, 'params': ['line']}),
+    ]),
     'GenReplacedBox': ('weasyprint/layout/replaced.py', [
         # the functions under the handle_min_max_* decorators (`.without_min_max`); image.get_intrinsic_size is an
         # oracle; in replaced_box_width the call statement of the (decorated) block_level_width imported inside the
@@ -2962,8 +3342,10 @@ TARGETS = {
         ('fun', 'replaced_box_height', 'replaced_box_height', {}),
         ('fun', 'replaced_box_width', 'replaced_box_width', {
             'oracle_stmts': {'block_level_width': (['box', 'containing_block'], ['box'])}}),
-        # replacedbox_layout translates as it is (its `assert object_fit == 'none', object_fit` is accepted), but its
-        # equality with model rb_layout is not proved yet: not a target, so that a refusal cannot raise a false alarm
+        # replacedbox_layout translates as it is (its `assert object_fit == 'none', object_fit` is accepted); its calls
+        # of contain_/cover_constraint_image_sizing, percentage and Box.content_box_x/y are answered by the callees'
+        # own regenerated bodies (GenReplaced, GenPercent, GenBoxes) in proofs/C13_gen_layout.v
+        ('fun', 'replacedbox_layout', 'replacedbox_layout', {}),
     ]),
     'GenMinMax': ('weasyprint/layout/min_max.py', [
         # the function that a call of a @handle_min_max_width / @handle_min_max_height function executes (option
@@ -3051,10 +3433,16 @@ TARGETS = {
         ('fun', 'Stream.end_text', 'stream_end_text', {'obj_methods': STREAM_METHODS, 'call_as': 'Stream.end_text'}),
         ('fun', 'Stream.set_font_size', 'stream_set_font_size', {
             'obj_methods': STREAM_METHODS, 'call_as': 'Stream.set_font_size'}),
-        # begin_marked_content translates too (with 'begin_marked_content': ['tag', 'property_list'] under 'super' and
-        # 'module_calls': {'pydyf.Dictionary': 'dict'}), but its equality with the model is not proved yet: not a target
         ('fun', 'Stream.end_marked_content', 'stream_end_marked_content', {
             'obj_methods': STREAM_METHODS, 'call_as': 'Stream.end_marked_content'}),
+        # pydyf.Dictionary({'MCID': len(self.marked)}) is the oracle "pydyf.Dictionary", self.get_marked_content_tag
+        # the method oracle ".get_marked_content_tag" (both specified in model/C16Py.v)
+        ('fun', 'Stream.begin_marked_content', 'stream_begin_marked_content', {
+            'obj_methods': STREAM_METHODS, 'call_as': 'Stream.begin_marked_content'}),
+        # self._ctm_stack[-1] = Matrix(a, b, c, d, e, f) @ self.ctm : the store into the last item is the statement
+        # form `x.a[-1] = e` of 'obj_methods'; Matrix(..) and @ are linked to gen/GenMatrix.v by the theorems
+        ('fun', 'Stream.transform', 'stream_transform', {
+            'obj_methods': STREAM_METHODS, 'call_as': 'Stream.transform'}),
     ]),
 }
 
@@ -3066,6 +3454,7 @@ def generate(repo, out_dir, only=None):
     # first pass: the signatures of all function targets (what a translated body may call)
     CALLABLE.clear()
     CTORS.clear()
+    STATIC_METHODS.clear()
     for fname, (src, targets) in TARGETS.items():
         try:
             tree0 = ast.parse(open(os.path.join(repo, src)).read())
@@ -3091,6 +3480,9 @@ def generate(repo, out_dir, only=None):
             try:
                 fn0 = find_function(tree0, pyname)
                 key = ('.' + pyname.split('.')[-1]) if '.' in pyname else pyname
+                if extra.get('static'):
+                    check_static(fn0, pyname)
+                    STATIC_METHODS.add(key)
                 CALLABLE[extra.get('call_as', key)] = signature(fn0)
             except Unsupported:
                 pass
@@ -3139,6 +3531,16 @@ def generate(repo, out_dir, only=None):
                     fn = find_function(tree, pyname)
                     CLOSURE_PARAMS.clear()
                     VARARG[0] = None
+                    if extra.get('static'):
+                        check_static(fn, pyname)
+                    for x_ in extra.get('out_params', ()):
+                        # option 'out_params': parameters whose list object the function mutates for its caller (the
+                        # theorems read the final value of the variable as the state of that object): refused when the
+                        # name is ever rebound, which would leave the caller's object alone
+                        if x_ not in [a_.arg for a_ in fn.args.args] or any(
+                                isinstance(n_, ast.Name) and n_.id == x_ and not isinstance(n_.ctx, ast.Load)
+                                for n_ in ast.walk(fn)):
+                            raise Unsupported('%s is not a parameter of %s that is never rebound' % (x_, pyname))
                     if extra.get('inner'):
                         fn = decorator_inner(tree, fn, extra['inner'])
                     if extra.get('consts') is not None or extra.get('tests') or extra.get('free'):
@@ -3194,6 +3596,14 @@ def generate(repo, out_dir, only=None):
             open(dest, 'w').write(text)
             written.append(dest)
     return written, errors
+
+
+def check_static(fn, pyname):
+    """option 'static' of a method target: the def is decorated by exactly `@staticmethod` (its parameters are then
+    the arguments of the call, without the receiver); the builtin name is not rebound at the level of the class"""
+    if '.' not in pyname or len(fn.decorator_list) != 1 or not isinstance(fn.decorator_list[0], ast.Name) \
+            or fn.decorator_list[0].id != 'staticmethod':
+        raise Unsupported('%s is not a method decorated by exactly @staticmethod' % pyname)
 
 
 def check_setitem_alias(stmts):
